@@ -32,6 +32,28 @@ pub fn base_file(hdr: usize, layout: usize) -> Vec<u8> {
         d.buf.extend((0..filler).map(|i| b"filler comment "[i % 15]));
         d.buf.push(b'\n');
     }
+    if layout == 5 {
+        // an encrypted document (RC4 128 bit, empty user password): the base stream's data is ciphertext
+        use crate::refcrypt::{variant, Handler};
+        const ID0: &[u8] = b"0123456789abcdef";
+        let h = Handler::new(variant("R3-RC4-128"), b"", b"ownerpw", -3904, ID0, true);
+        let hexs = |d: &[u8]| format!("<{}>", d.iter().map(|b| format!("{:02X}", b)).collect::<String>());
+        let mut e: Vec<(u64, XEntry)> = vec![(0, XEntry::Free { next: 0, gen: 65535 })];
+        let o = d.obj(1, 0, b"<< /Z 1 >>");
+        e.push((1, XEntry::InUse { off: o, gen: 0 }));
+        let o = d.obj(2, 0, b"<< /Z 1 >>");
+        e.push((2, XEntry::InUse { off: o, gen: 0 }));
+        let o = d.stream(3, 0, "/Z 1", &h.encrypt(3, 0, STREAM_DATA), None, false);
+        e.push((3, XEntry::InUse { off: o, gen: 0 }));
+        let o = d.obj(4, 0, &catalog_body(5));
+        e.push((4, XEntry::InUse { off: o, gen: 0 }));
+        let o = d.obj(5, 0, &empty_pages_body());
+        e.push((5, XEntry::InUse { off: o, gen: 0 }));
+        let o = d.obj(6, 0, h.dict().as_bytes());
+        e.push((6, XEntry::InUse { off: o, gen: 0 }));
+        d.xref_table(&e, 8, &format!("/Root 4 0 R /Encrypt 6 0 R /ID [{} {}]", hexs(ID0), hexs(ID0)), None, Split::Min);
+        return d.buf;
+    }
     let layout = match layout { 2 | 4 => 0, 3 => 1, l => l };
     let mut e: Vec<(u64, XEntry)> = vec![(0, XEntry::Free { next: 0, gen: 65535 })];
     let o = d.obj(1, 0, b"<< /Z 1 >>");
@@ -254,6 +276,8 @@ struct Run<'a> {
 }
 impl<'a> Run<'a> {
     fn fail(&mut self, class: &str, step: usize, extra: Value) {
+        let class = if self.layout == 5 { format!("{}:encrypted-base", class) } else { class.to_string() };
+        let class = class.as_str();
         let mut d = json!({"case_index": self.ci, "case": self.case, "layout": self.layout, "step": step});
         for (k, v) in extra.as_object().unwrap() {
             d[k] = v.clone();
@@ -473,6 +497,10 @@ pub fn run(cases_path: &str, report_path: &str, opts: &[String]) {
         let mut layouts: Vec<usize> = if both_layouts { vec![0, 1, 2 + ci % 2] } else { vec![ci % 4] };
         if both_layouts && ci % 997 == 0 || !both_layouts && ci % 4999 == 0 {
             layouts.push(4);
+        }
+        // an encrypted base document for some of the cases
+        if ci % 7 == 3 {
+            layouts.push(5);
         }
         if let Some(k) = opts.iter().position(|o| o == "--layout") {
             layouts = vec![opts[k + 1].parse().unwrap()];
